@@ -565,6 +565,14 @@ theorem C16_local_config_ignored (rest : Str) (deeper : List Str) (hrest : ∀ g
       [".xvc".toList, "config.local.toml".toList] false = true :=
   C16_cache_never_staged rest "config.local.toml".toList [] false deeper (by decide) (by decide) (by decide) (by decide) hrest
 
+/-- the directory of temporary files `.xvc/tmp` (workspace copies are written there and renamed, repair F29) and
+    everything below it is ignored as well: a temporary copy of tracked data is never staged -/
+theorem C16_tmp_dir_ignored (rest : Str) (more : List Str) (isDir : Bool) (deeper : List Str)
+    (hrest : ∀ g ∈ parseContent rest, g.neg = false) :
+    ignoredBy ((Gen.GITIGNORE_INITIAL_CONTENT.toList ++ rest) :: [] :: deeper)
+      (".xvc".toList :: "tmp".toList :: more) isDir = true :=
+  C16_cache_never_staged rest "tmp".toList more isDir deeper (by decide) (by decide) (by decide) (by decide) hrest
+
 /-- non-vacuity, computed on a workspace right after `xvc init` + two tracked files: a cached file of every
     algorithm is ignored, the store / entity counter / project configuration are not -/
 example : ∀ alg ∈ HashAlgorithm.all,
@@ -646,3 +654,5 @@ open Ign.Git in
 #print axioms C16_cache_file_ignored_for_every_algorithm
 open Ign.Git in
 #print axioms C16_local_config_ignored
+open Ign.Git in
+#print axioms C16_tmp_dir_ignored
